@@ -12,7 +12,9 @@
 EXTENDS Paths
 
 CONSTANTS PNodes, PTMax, PDir, PLoops, PKF,
-          PSparse    \* TRUE: every pair is present at no or exactly one instant (larger node sets stay enumerable)
+          PSparse,   \* TRUE: every pair is present at no or exactly one instant (larger node sets stay enumerable)
+          PAcc       \* TRUE: accumulative graphs - pg holds the instants of the adds, an interaction is present from its
+                     \* first add to the largest snapshot id (C08); the snapshot ids are the instants of the adds
 
 VARIABLE pg      \* the presence relation: set of <<a, b, t>> (ordered pairs)
 vars == <<pg>>
@@ -28,6 +30,12 @@ Domain == IF PSparse
           ELSE { Sym3(Flat3(S)) : S \in SUBSET (BasePairs \X PTimes) }
 
 IdsOf(P) == SortedSeq({ x[3] : x \in P })
+\* the presence relation of the graph pg stands for
+PresOf3(P) ==
+  IF ~PAcc \/ P = {} THEN P
+  ELSE LET last == MaxOf({ x[3] : x \in P })
+           first(a, b) == MinOf({ x[3] : x \in { y \in P : y[1] = a /\ y[2] = b } })
+       IN UNION { { <<p[1], p[2], t>> : t \in first(p[1], p[2]) .. last } : p \in { <<x[1], x[2]>> : x \in P } }
 
 (***************************************************************************)
 (* temporal_dag                                                             *)
@@ -81,23 +89,26 @@ InvPaths ==
   LET ids == IdsOf(pg) IN
   ids # <<>> =>
     \A u \in PNodes : \A v \in PNodes \cup {NoNode} : \A w \in Windows(ids) :
-        LET m == ModelPaths(pg, ids, u, v, w[1], w[2])
-            a == AllPaths(pg, ids, u, v, w[1], w[2])
+        LET P == PresOf3(pg)
+            m == ModelPaths(P, ids, u, v, w[1], w[2])
+            a == AllPaths(AtIds(P, ids), ids, u, v, w[1], w[2])
         IN m = a \/ ("KF7" \in PKF /\ KF7_missing(a, m, u))
 \* C12 at design level: every element of the declarative set satisfies the statement
 InvValid ==
   LET ids == IdsOf(pg) IN
   ids # <<>> =>
     \A u \in PNodes : \A w \in Windows(ids) :
-      \A h \in AllPaths(pg, ids, u, NoNode, w[1], w[2]) : ValidPath(pg, ids, h, u, NoNode, w[1], w[2])
+      LET P == PresOf3(pg) IN
+      \A h \in AllPaths(AtIds(P, ids), ids, u, NoNode, w[1], w[2]) : ValidPath(P, ids, h, u, NoNode, w[1], w[2])
 \* C15 at design level
 InvDag ==
   LET ids == IdsOf(pg) IN
   ids # <<>> =>
     \A u \in PNodes : \A w \in Windows(ids) :
-      LET d == ModelDag(pg, ids, u, w[1], w[2]) IN
+      LET P == PresOf3(pg)
+          d == ModelDag(P, ids, u, w[1], w[2]) IN
       /\ \A x \in d.edges : x[1][2] < x[2][2] \/ (x[1][2] = x[2][2] /\ x[1] \in d.src)
       /\ \A x \in d.edges : x[1] # x[2] \/ ("KF7" \in PKF /\ x[1] \in d.src)
-      /\ \A x \in d.edges : <<x[1][1], x[2][1], x[2][2]>> \in pg /\ w[1] <= x[2][2] /\ x[2][2] <= w[2]
-      /\ d.src = { <<u, t>> : t \in { x \in ToSet(ids) : w[1] <= x /\ x <= w[2] /\ OutAt(pg, u, x) } }
+      /\ \A x \in d.edges : <<x[1][1], x[2][1], x[2][2]>> \in P /\ w[1] <= x[2][2] /\ x[2][2] <= w[2]
+      /\ d.src = { <<u, t>> : t \in { x \in ToSet(ids) : w[1] <= x /\ x <= w[2] /\ OutAt(P, u, x) } }
 ==============================================================================
